@@ -11,9 +11,14 @@
 (* The cache maps <<chars, configHash>> (KeyHasTokens = FALSE, the code as it was)   *)
 (* or <<chars, toks, configHash>> (KeyHasTokens = TRUE, the repaired key) to the     *)
 (* lints computed when the entry was inserted; LRU with capacity Cap.                *)
+(* A chunk may also record what stands before it (`before`: the terminator or break   *)
+(* that closed the previous chunk).  A pattern rule in Peeking reads that too - a      *)
+(* deviation a seeded change introduced (a rule walking the source past the start of   *)
+(* its chunk); the cache key cannot know, so the same chunk behind two different        *)
+(* neighbours shows the cache.  Peeking = {} is the code as it is.                      *)
 EXTENDS Naturals, Sequences, FiniteSets, TLC
 
-CONSTANTS WholeRules, PatternRules, Docs, Cap, KeyHasTokens, MaxOps
+CONSTANTS WholeRules, PatternRules, Docs, Cap, KeyHasTokens, MaxOps, Peeking
 Rules == WholeRules \cup PatternRules
 
 VARIABLES enabled,     \* set of enabled rules (the effective configuration)
@@ -27,7 +32,9 @@ lgvars == <<enabled, cache, result, fresh, hits, lintedWith, nops>>
 
 CfgHash(E) == E                                  \* the hash distinguishes configurations
 Key(ch, E) == IF KeyHasTokens THEN <<ch.chars, ch.toks, CfgHash(E)>> ELSE <<ch.chars, CfgHash(E)>>
-PatternLints(ch, E) == {<<r, ch.toks>> : r \in PatternRules \cap E}
+Before(ch) == IF "before" \in DOMAIN ch THEN ch.before ELSE "start"
+PatternLints(ch, E) == {<<r, ch.toks>> : r \in (PatternRules \cap E) \ Peeking}
+                       \cup {<<r, ch.toks, Before(ch)>> : r \in PatternRules \cap E \cap Peeking}
 WholeLints(d, E) == {<<r, "doc", d>> : r \in WholeRules \cap E}
 
 \* what a fresh group (empty cache) returns
